@@ -268,8 +268,28 @@ def predicate_exists(I, h, smax=2, wmax=2):
     return "ok"
 
 
+def views_pair(I, h):
+    """the (pre, post) pair handed to the VM: `pre()` is its first component, `post()` its second; a pre-state read op therefore
+    reaches the first, a post-state read op the second"""
+    E = I.E
+    a, b = Agg("ViewA", [Cell(Int("u8", 1))]), Agg("ViewB", [Cell(Int("u8", 2))])
+    pair = Agg(None, [Cell(a), Cell(b)])
+    fs = [f for f in I.P.by_last["vm"].get("pre", []) + I.P.by_last["vm"].get("post", []) if f.params and f.params[0][1].replace(" ", "") == "&(S,P)"]
+    got = {}
+    for f in fs:
+        r = I.run_fn(f, [h.ref(pair)])
+        got[f.name.rsplit("::", 1)[-1]] = stdmodels.deref(r)
+    if set(got) != {"pre", "post"}: raise Unmodelled("impl StateReads for (S, P) not found in the MIR of the vm crate")
+    if got["pre"] is not a: raise Violation("pre() of the (pre, post) pair is not its first component", E.model_for(), dict(which="pre"))
+    if got["post"] is not b: raise Violation("post() of the (pre, post) pair is not its second component", E.model_for(), dict(which="post"))
+    return "ok"
+
+
 CR = ["types", "asm", "vm"]
 HARNESSES = {
+    "views_pair": dict(props=["C03", "C11"], crates=CR, fn=views_pair, witnesses=["ok"],
+        bound_text="impl StateReads for (S, P): two distinguishable components",
+        replay=dict(kind="vm_views")),
     "state_read": dict(props=["C11", "C05", "C03"], crates=CR, fn=state_read,
         params=dict(quick=dict(kl=2, nm=5, rmax=2, vmax=1), thorough=dict(kl=2, nm=7, rmax=2, vmax=2)),
         witnesses=["ok", "err-operands", "state-error", "err-fit"],
